@@ -5,6 +5,15 @@ NOTES = ("Machine-checked proof in Lean 4 about a hand-written model that mirror
          "implementation's traces. See DESIGN.md.")
 NOT_YET = {}
 TEXT = {
+ "C16": {
+  "level": "Theorem roundtrip: for all byte strings older, newer (< 2^63) and every match list tiling newer, bipatchDecode (encodePatch older newer ms) older = newer - "
+           "by induction over the match list with LEB128/zig-zag round-trip lemmas and wrapping byte arithmetic; roundtrip_hash for the reported hash. The Lean encoder is compared "
+           "byte for byte with bidiff's real output, the Lean decoder with the real bipatch crate (also on damaged streams), SHA-256 with sha2, and the real tool's file is installed "
+           "through the real library end to end.",
+  "design_ref": "DESIGN.md section 3, C16",
+  "note": "partial: zstd trusted (identity assumed, observed on every end-to-end case); that bidiff's scanner emits a tiling is checked at run time on every pair, not proved.",
+  "technique": "Lean 4 theorem (encode/decode round trip for all inputs) + differential check against the real crates",
+ },
  "C01": {
   "level": "Theorems next_boot_patch_sound (for EVERY world, any disk contents: a reported next-boot patch is the recorded selection, its file exists with the recorded size, "
            "and with a key the recorded signature verifies over the file's current SHA-256) and C01_holds (over all histories incl. every damage of the alphabet: the size is the "
